@@ -342,6 +342,14 @@ package verifier
 
 // ---------------------------------------------------------------- verifier.go: VerifyWithContext (property C12, round 2)
 //
+// NOT UNDER CONTRACT. The lines below are written `//#` instead of `//@` and are not read by govc:
+// the contract was prepared in round 2 but cannot be discharged, because the proved contract of
+// x509.FilterByDate (certpool area) does not say that the chains it returns are among the
+// chains it was given; without that the second FilterByDate call and parentsFromChains cannot be
+// shown panic-free (their arguments would be arbitrary chains). See /verif/notes/verifier.md,
+// R2.4, for what was tried and how far it got. To activate: change `//#` back to `//@` here and in
+// /verif/extern/verifier.contracts (WalkChains, RevocationProvider).
+//
 // Result assembly. (*Graph).WalkChains has an ASSUMED contract (/verif/extern/verifier.contracts:
 // goroutine + channel), the RevocationProvider methods have assumed contracts (no panic, nothing
 // pre-existing written); everything else is proved against the real code.
@@ -368,39 +376,39 @@ package verifier
 // the marker premise is discharged by pmark's axiom). The `at call Add` / `at call
 // parentsFromChains` assertions stage the proof (list by list, then the concatenation); proved
 // at-call assertions are available as facts afterwards.
-//@ pred isRootIn(g, c) = inSet(g.edges, certKey(c)) && g.edges.edges[certKey(c)].root
-//@ pred relevantChains(res) = ite(res.Expired, res.ValidAtExpirationChains, res.CurrentChains)
-//@ pred secondOf(chains, p) = !forall(i, 0, len(chains), !(ix(i) && len(chains[i]) >= 2 && p == chains[i][1]), spec.idx(i))
+//# pred isRootIn(g, c) = inSet(g.edges, certKey(c)) && g.edges.edges[certKey(c)].root
+//# pred relevantChains(res) = ite(res.Expired, res.ValidAtExpirationChains, res.CurrentChains)
+//# pred secondOf(chains, p) = !forall(i, 0, len(chains), !(ix(i) && len(chains[i]) >= 2 && p == chains[i][1]), spec.idx(i))
 // the certificates of the graph region and c (ghost.cert, see the walker section) exist and carry
 // validity dates without monotonic clock reading (they come from parsing or time.Date; only
 // time.Now returns such readings): precondition of FilterByDate.
-//@ pred certGood(c) = c != nil && !hasMono(c.NotBefore) && !hasMono(c.NotAfter)
-//@ pred goodChain(x) = allocated(x) && forall(m, 0, len(x), !spec.pmark(m) || certGood(x[m]), x[m])
-//@ pred goodList(l) = forall(j, 0, len(l), !spec.pmark(j) || goodChain(l[j]), l[j])
+//# pred certGood(c) = c != nil && !hasMono(c.NotBefore) && !hasMono(c.NotAfter)
+//# pred goodChain(x) = allocated(x) && forall(m, 0, len(x), !spec.pmark(m) || certGood(x[m]), x[m])
+//# pred goodList(l) = forall(j, 0, len(l), !spec.pmark(j) || goodChain(l[j]), l[j])
 // x is one of the chains of list l (same slice value)
-//@ pred chainOf(l, x) = !forall(i, 0, len(l), !spec.pmark(i) || !same(x, l[i]), spec.pmark(i))
-//@ pred subList(a, l) = forall(j, 0, len(a), !spec.pmark(j) || chainOf(l, a[j]), a[j])
-//@ pred certOK(c) = c != nil && allocated(c) && allocated(c.Extensions) && allocated(c.DNSNames) && allocated(c.IPAddresses) && forall(j, 0, len(c.Extensions), allocated(c.Extensions[j].Id), spec.mark(j)) && forall(j, 0, len(c.IPAddresses), allocated(c.IPAddresses[j]), spec.mark(j))
-//@ func (*Verifier).VerifyWithContext
-//@   uses xadd
-//@   requires v != nil && v.PKI != nil && certOK(c)
-//@   requires walkReq(v.PKI, c)
-//@   requires forallv(x, *x509.Certificate, ghost.cert(x) ==> x != nil && allocated(x) && !hasMono(x.NotBefore) && !hasMono(x.NotAfter), ghost.cert(x))
-//@   requires opts.OneCRL == nil && opts.CRLSet == nil
-//@   at call FilterByDate#1 assert [flow] same(arg0, graphChains) && same(arg1, opts.VerifyTime) && goodList(graphChains)
-//@   at call VerifyHostname assert [name] arg0 == c && arg1 == opts.Name
-//@   at call Add assert [stage] goodList(res.CurrentChains) && goodList(res.ExpiredChains) && goodList(res.NeverValidChains) && goodList(allChains)
-//@   at call Add assert [stage] subList(res.CurrentChains, graphChains) && subList(res.ExpiredChains, graphChains) && subList(res.NeverValidChains, graphChains) && subList(allChains, graphChains)
-//@   at call Add assert [flow] same(arg0, c.NotAfter) && arg1 == -1000000000
-//@   at call FilterByDate#2 assert [flow] same(arg0, allChains) && same(arg1, expirationTime)
-//@   at call parentsFromChains assert [parents] (res.Expired ==> same(arg0, res.ValidAtExpirationChains)) && (!res.Expired ==> same(arg0, res.CurrentChains)) && goodList(arg0) && subList(res.ValidAtExpirationChains, graphChains)
-//@   ensures [fresh] res != nil && fresh(res)
-//@   ensures [name] res.Name == opts.Name && (len(opts.Name) == 0 ==> res.NameError == nil)
-//@   ensures [type] isRootIn(v.PKI, c) ==> res.CertificateType == x509.CertificateTypeRoot
-//@   ensures [type] !isRootIn(v.PKI, c) && c.IsCA && len(res.Parents) > 0 ==> res.CertificateType == x509.CertificateTypeIntermediate
-//@   ensures [type] !isRootIn(v.PKI, c) && !c.IsCA && len(res.Parents) > 0 ==> res.CertificateType == x509.CertificateTypeLeaf
-//@   ensures [type] !isRootIn(v.PKI, c) && len(res.Parents) == 0 ==> res.CertificateType == x509.CertificateTypeUnknown
-//@   ensures [parents] forall(j, 0, len(res.Parents), px(j) ==> secondOf(relevantChains(res), res.Parents[j]), spec.pos(j))
-//@   ensures [lists] forallv(w, []x509.CertificateChain, ghost.walked(v.PKI, c, w) ==> subList(res.CurrentChains, w) && subList(res.ExpiredChains, w) && subList(res.NeverValidChains, w) && subList(res.ValidAtExpirationChains, w), ghost.walked(v.PKI, c, w))
-//@   ensures [revset] !res.InRevocationSet
-//@   modifies c.ValidSignature, ghost.walked, ghost.keySigOK, ghost.bigEq, ghost.bigStr
+//# pred chainOf(l, x) = !forall(i, 0, len(l), !spec.pmark(i) || !same(x, l[i]), spec.pmark(i))
+//# pred subList(a, l) = forall(j, 0, len(a), !spec.pmark(j) || chainOf(l, a[j]), a[j])
+//# pred certOK(c) = c != nil && allocated(c) && allocated(c.Extensions) && allocated(c.DNSNames) && allocated(c.IPAddresses) && forall(j, 0, len(c.Extensions), allocated(c.Extensions[j].Id), spec.mark(j)) && forall(j, 0, len(c.IPAddresses), allocated(c.IPAddresses[j]), spec.mark(j))
+//# func (*Verifier).VerifyWithContext
+//#   uses xadd
+//#   requires v != nil && v.PKI != nil && certOK(c)
+//#   requires walkReq(v.PKI, c)
+//#   requires forallv(x, *x509.Certificate, ghost.cert(x) ==> x != nil && allocated(x) && !hasMono(x.NotBefore) && !hasMono(x.NotAfter), ghost.cert(x))
+//#   requires opts.OneCRL == nil && opts.CRLSet == nil
+//#   at call FilterByDate#1 assert [flow] same(arg0, graphChains) && same(arg1, opts.VerifyTime) && goodList(graphChains)
+//#   at call VerifyHostname assert [name] arg0 == c && arg1 == opts.Name
+//#   at call Add assert [stage] goodList(res.CurrentChains) && goodList(res.ExpiredChains) && goodList(res.NeverValidChains) && goodList(allChains)
+//#   at call Add assert [stage] subList(res.CurrentChains, graphChains) && subList(res.ExpiredChains, graphChains) && subList(res.NeverValidChains, graphChains) && subList(allChains, graphChains)
+//#   at call Add assert [flow] same(arg0, c.NotAfter) && arg1 == -1000000000
+//#   at call FilterByDate#2 assert [flow] same(arg0, allChains) && same(arg1, expirationTime)
+//#   at call parentsFromChains assert [parents] (res.Expired ==> same(arg0, res.ValidAtExpirationChains)) && (!res.Expired ==> same(arg0, res.CurrentChains)) && goodList(arg0) && subList(res.ValidAtExpirationChains, graphChains)
+//#   ensures [fresh] res != nil && fresh(res)
+//#   ensures [name] res.Name == opts.Name && (len(opts.Name) == 0 ==> res.NameError == nil)
+//#   ensures [type] isRootIn(v.PKI, c) ==> res.CertificateType == x509.CertificateTypeRoot
+//#   ensures [type] !isRootIn(v.PKI, c) && c.IsCA && len(res.Parents) > 0 ==> res.CertificateType == x509.CertificateTypeIntermediate
+//#   ensures [type] !isRootIn(v.PKI, c) && !c.IsCA && len(res.Parents) > 0 ==> res.CertificateType == x509.CertificateTypeLeaf
+//#   ensures [type] !isRootIn(v.PKI, c) && len(res.Parents) == 0 ==> res.CertificateType == x509.CertificateTypeUnknown
+//#   ensures [parents] forall(j, 0, len(res.Parents), px(j) ==> secondOf(relevantChains(res), res.Parents[j]), spec.pos(j))
+//#   ensures [lists] forallv(w, []x509.CertificateChain, ghost.walked(v.PKI, c, w) ==> subList(res.CurrentChains, w) && subList(res.ExpiredChains, w) && subList(res.NeverValidChains, w) && subList(res.ValidAtExpirationChains, w), ghost.walked(v.PKI, c, w))
+//#   ensures [revset] !res.InRevocationSet
+//#   modifies c.ValidSignature, ghost.walked, ghost.keySigOK, ghost.bigEq, ghost.bigStr
